@@ -5,3 +5,6 @@ import Bmc.Proofs.C12
 #print axioms Bmc.Proofs.C12.defaults
 #print axioms Bmc.Proofs.C12.defaults_fact
 #print axioms Bmc.Proofs.C12.no_downgrade
+#print axioms Bmc.Proofs.C12.discovery_then_choice
+#print axioms Bmc.Proofs.C12.first_advertised_preference
+#print axioms Bmc.Proofs.C12.discovery_failure_is_error
